@@ -412,7 +412,7 @@ def run(ctx):
         ctx.floor('documented boundary cases evaluated (%s)' % pair, n_boundary, 60)
         ctx.count('functions_gaining_panic_sites:' + pair, n_gain)
         ctx.floor('internally established normalisation preconditions (%s)' % pair,
-                  sum(1 for o in ctx.obligations if o[0] == 'R-PRECOND-INT' and o[1] == pair), 12)
+                  sum(1 for o in ctx.obligations if o[0] == 'R-PRECOND-INT' and o[1] == pair), 9)      # measured 12; inlining a helper removes instances legitimately
     for (tn_, mname_, argc_), lst in sorted(cross.items()):
         if len(lst) < 2:
             continue
